@@ -62,6 +62,94 @@ CHECKS = {
              'counts. Distinct interleavings observed are counted from the recorded (thread, event, cell) trace.',
         note='granularity below a cell evaluation is only reached by the randomised stress part',
         design='DESIGN.md section 5 C07, section 9 experiment 1'),
+    'C08': dict(
+        technique='runtime monitoring: lock-step twin run of an untrimmed and a trimmed (and trimmed+reloaded) model '
+                  'under repeated re-assignment of all inputs; value comparison after every round',
+        level='exploration',
+        text='Generated workbooks x input sets (leaf cells, a buried formula cell, a range node) x output sets x '
+             '{no-data, stored results} x {trim before/after evaluation} x {direct, yml/json/pkl round trip}; 4 rounds '
+             'of assignments from the scalar pool, every output compared with the untrimmed twin each round and right '
+             'after the trim (frozen values).',
+        note='inputs are chosen so that trim_graph does not refuse them; buried inputs only where the untrimmed '
+             'answer is order independent',
+        design='DESIGN.md section 5 C08'),
+    'C09': dict(
+        technique='runtime monitoring with fault injection: each formula cell in turn made to fail (unknown function, '
+                  'raising plugin) at every position; follow-up history observed at the public boundary; hook H2 and '
+                  'transient-state walks recorded as suspects',
+        level='fault_enumeration',
+        text='Every formula cell of every generated workbook is made to fail in turn (3 fault kinds x 3 first-touch '
+             'paths x plain/iterative, plus failures inside contracting cycles); retries, unrelated cells, a second '
+             'independent failure and the repaired model are compared with fresh models and the exception classes '
+             'are checked.',
+        note='fault positions are enumerated per workbook; workbooks are sampled',
+        design='DESIGN.md section 5 C09'),
+    'C11': dict(
+        technique='runtime monitoring: reference-model oracle (integer rectangles) over exhaustive small-grid and '
+                  'sampled large inputs of the real address classes',
+        level='exploration',
+        text='Round trips through every printed form, A1/R1C1/tuple notations, enumeration and containment, and the '
+             'lattice laws of & and ** over all pairs (and, in the thorough tier, all 10^6 triples) of rectangles '
+             'of a 4x4 grid plus sampled large rectangles and hostile sheet names.',
+        note='reference model vp/refmodel/rect.py written from the statement',
+        design='DESIGN.md section 5 C11'),
+    'C14': dict(
+        technique='runtime monitoring: reference-model and metamorphic oracles (permutation, reshape, partition, '
+                  'AVERAGE=SUM/COUNT, SUBTOTAL) over generated rectangles through worksheets and library wrappers',
+        level='exploration',
+        text='All small rectangles over a 41-value mixed-type pool (exhaustive 1x1..2x2/1x3), all 25 shapes x fill '
+             'classes, sampled 5x5; exact Fraction arithmetic in the reference model.',
+        note='permissive readings fixed in DESIGN.md: COUNT over error cells, order dependence of "first error"',
+        design='DESIGN.md section 5 C14'),
+    'C15': dict(
+        technique='runtime monitoring: three-valued reference matcher plus metamorphic laws (IFS=IF, commutation, '
+                  '=x/<>x partition, AVERAGEIFS=SUMIFS/COUNTIFS) over generated ranges and criteria',
+        level='exploration',
+        text='A complete (cell x criterion) table over the pools, fixed 5x3 ranges, shape mismatches and a sampled '
+             'part with 1-3 criteria pairs; closed cases are asserted by value, open ones by totality and laws.',
+        note='combinations the statement leaves open are never asserted by value (see the module docstring)',
+        design='DESIGN.md section 5 C15'),
+    'C16': dict(
+        technique='runtime monitoring: linear-scan reference model returning the set of acceptable answers, plus '
+                  'laws (VLOOKUP = INDEX at MATCH, VLOOKUP(t) = HLOOKUP(transpose t)) over generated vectors/tables',
+        level='exploration',
+        text='Enumerated mini-space (6-value pool, vectors up to 4, all table shapes), directed wildcard cases, '
+             'index sweeps and a large sampled part; 2-4 % of cases through real workbooks.',
+        note='unsorted data with match type +-1 is not generated; blank cells in data accept both readings',
+        design='DESIGN.md section 5 C16'),
+    'C17': dict(
+        technique='runtime monitoring: closed-form calendar reference model over every serial day (thorough: all '
+                  '2958466 days and all 86400 seconds, exhaustive) and generated DATE/EDATE/EOMONTH/YEARFRAC inputs',
+        level='exploration',
+        text='Thorough enumerates the whole calendar and the whole day; quick strides it with a seed-dependent step '
+             'and a fixed boundary set. DATE normalisation, month shifts -1200..1200, YEARFRAC symmetry, '
+             'H/M/S decomposition, #NUM! instead of exceptions.',
+        note='reference model vp/refmodel/calendar.py self-checks against datetime at the start of every shard',
+        design='DESIGN.md section 5 C17'),
+    'C18': dict(
+        technique='runtime monitoring: two\'s-complement reference model over the exhaustive binary range and '
+                  'sampled octal/hex ranges, places 1..10 and illegal digit strings',
+        level='exploration',
+        text='All 1024 integers of the binary range as int/float/text with all places, all binary texts up to 11 '
+             'characters, boundary and sampled octal/hex values, one illegal character at every position.',
+        note='for negative numbers with places both readings (#NUM! or the 10 digit rendering) are accepted',
+        design='DESIGN.md section 5 C18'),
+    'C19': dict(
+        technique='runtime monitoring: exact decimal/Fraction reference model over generated ties and near-ties '
+                  'k/10^j, digits -6..6 and a signed significance pool',
+        level='exploration',
+        text='Ties and near-ties are generated exactly; ROUND/ROUNDUP/ROUNDDOWN/TRUNC/INT/MOD/CEILING*/FLOOR*/EVEN/ODD '
+             'compared with the reference; float identities with the 8 ulp tolerance fixed in DESIGN.md.',
+        note='MOD identity and bracket checks are tolerance based by design',
+        design='DESIGN.md section 5 C19'),
+    'C20': dict(
+        technique='runtime monitoring: Python-slicing reference model and algebraic laws over exhaustive short strings '
+                  'and generated numbers/format strings',
+        level='exploration',
+        text='All strings up to length 3 (quick) / 4 (thorough) over an alphabet with repeats, a space and multi-byte '
+             'characters x all n, k in -1..10; TEXT over a grid of decimal mantissas x 160 formats.',
+        note='empty and self-overlapping SUBSTITUTE needles are not generated',
+        design='DESIGN.md section 5 C20'),
 }
 
 NOT_YET = {}
